@@ -162,6 +162,11 @@ func (g *gen) paths(full bool) []pth {
 			res = append(res, pth{"/" + n + "/", "bad", ""})
 			res = append(res, pth{"/joinchat/" + n + "/x", "bad", ""})
 			res = append(res, pth{"/x/" + n, "bad", ""})
+			// the fixed template segment is compared exactly: case variants, folds and near misses
+			// of "joinchat" in front of a second segment match neither template
+			for _, fx := range []string{"JoinChat", "JOINCHAT", "joinchaT", "Joinchat", "joinchat ", "joinchats", "oinchat", "j\u00f6inchat"} {
+				res = append(res, pth{"/" + fx + "/" + n, "bad", ""})
+			}
 		} else {
 			res = append(res, pth{"/" + n, "?", ""})
 			res = append(res, pth{"/joinchat/" + n, "?", ""})
